@@ -590,6 +590,84 @@ pub fn cache_only_case(seed: u64, l: &mut Local) {
     }
 }
 
+/// T7: "and forgets the records it cached for the stopped browse", read off the hooked cache right after
+/// `stop_browse`: no PTR of the type, no SRV/TXT of its instances, no address of their hosts is left
+/// (nothing else is searching for them).
+pub fn forget_case(seed: u64, l: &mut Local) {
+    let mut rng = Rng::new(seed);
+    let mut w = World::new(seed);
+    w.set_stepping(Stepping::Lazy);
+    let dual = rng.chance(1, 3);
+    let h = w.add_host(if dual { scen::single_dual() } else { scen::single_v4() });
+    w.set_ip_check_interval(h, 3600);
+    let ty = "_forget._udp.local.";
+    let other = "_keep._udp.local.";
+    if w.browse(h, ty).is_none() {
+        return;
+    }
+    let with_other = rng.chance(1, 2);
+    if with_other {
+        w.browse(h, other);
+    }
+    w.run_for(200 + rng.below(700));
+    let n = 1 + rng.usize(3);
+    let capitals = rng.chance(1, 2);
+    let mut svcs = Vec::new();
+    for i in 0..n {
+        // (names as their owners spell them)
+        let label = if rng.chance(1, 2) { format!("Inst{i} Lobby") } else { format!("inst{i}") };
+        let host = if capitals { format!("Forget-HOST{i}.local") } else { format!("forget-host{i}.local") };
+        let mut s = scen::Svc::new(ty, &label, &host, [10, 0, 0, 40 + i as u8]);
+        if dual && rng.chance(1, 2) {
+            s.v6.push([0xfe, 0x80, 0, 0, 0, 0, 0, 0, 0, 0, 0, 0, 0, 0, 0, 0x40 + i as u8]);
+        }
+        s.ttl_ptr = *rng.pick(&[120u32, 4500]);
+        s.ttl_srv = 120;
+        s.ttl_addr = 120;
+        w.inject_msg(h, 2, scen::peer4(40 + i as u8), &s.announce());
+        w.run_for(50 + rng.below(350));
+        svcs.push(s);
+    }
+    if with_other {
+        let s = scen::Svc::new(other, "kept", "Keep-Host.local", [10, 0, 0, 60]);
+        w.inject_msg(h, 2, scen::peer4(60), &s.announce());
+    }
+    w.run_for(1000 + rng.below(2000));
+    w.stop_browse(h, ty);
+    w.settle();
+    w.run_for(20 + rng.below(200));
+    let snap = w.snapshot(h);
+    l.evaluations += 1;
+    l.distinct.insert(util::fnv_str(&format!("forget|{n}|{capitals}|{dual}|{with_other}")));
+    if w.trace.deaths().any(|d| matches!(d.ev, Ev::Death { panicked: true, .. })) {
+        l.inconclusive.push(format!("daemon died in a C13 stop-and-forget scenario (seed {seed})"));
+        return;
+    }
+    let Some(snap) = snap else { return };
+    l.act("T7");
+    let left = snap.cache_records.iter().find_map(|r| {
+        let name = r.name.trim_end_matches('.').to_lowercase();
+        let is = |x: &str| x.trim_end_matches('.').to_lowercase() == name;
+        match r.map {
+            "ptr" if is(ty) => Some(("ptr", r)),
+            "srv" | "txt" if svcs.iter().any(|s| is(&s.fullname())) => Some((if r.map == "srv" { "srv" } else { "txt" }, r)),
+            "addr" if svcs.iter().any(|s| is(&s.host_str())) => Some(("address", r)),
+            _ => None,
+        }
+    });
+    if let Some((what, r)) = left {
+        l.violate(
+            Violation::new(
+                "T7",
+                format!("T7/record-of-stopped-browse-still-cached/{what}/{}", if capitals { "host-name-with-capitals" } else { "lower-case-host-name" }),
+                format!("after stop_browse({ty}) the cache still holds {} (type {}, {})", r.name, r.ty, r.rdata),
+            )
+            .with(json!({"instances": svcs.iter().map(|s| format!("{} on {}", s.fullname(), s.host_str())).collect::<Vec<_>>(), "other_browse_open": with_other,
+                         "cache": snap.cache_records.iter().map(|r| format!("{} {} t{} {}", r.map, r.name, r.ty, r.rdata)).collect::<Vec<_>>(), "trace": scen::witness(&w.trace, 30)})),
+        );
+    }
+}
+
 pub fn run_one(seed: u64, long: bool, l: &mut Local) {
     let made = scenario(seed, None, long);
     l.evaluations += 1;
@@ -613,21 +691,26 @@ pub fn run(report: &Report, tier: &Tier) {
         "API histories of 3..11 calls among browse / browse_cache / stop_browse / resolve_hostname (no timeout, 1 ms, 1.5 s, 7 s, 1 h; \
          lower, upper and mixed case) / stop_resolve_hostname / dropped receivers / shutdown, interleaved with announcements and host answers, \
          call times clustered around the retransmission instants (±1 ms); observed for 20 s or for 2-3 virtual hours after the last call; \
-         lazy and eager stepping; distinct by (stepping, sequence of operation kinds)",
+         lazy and eager stepping; plus stop_browse after 1..3 resolved instances (names and host names with capitals in half of the cases, a second browse of another type open or not): the hooked cache holds nothing of the stopped type afterwards (T7); distinct by (stepping, sequence of operation kinds)",
     );
     report.assume("services of browsed types live on hosts nobody resolves by name, so an A/AAAA question identifies the hostname search");
-    for r in ["T1", "T2", "T3-final", "T3-stop", "T4", "T5", "T6"] {
+    for r in ["T1", "T2", "T3-final", "T3-stop", "T4", "T5", "T6", "T7"] {
         report.floor(r, 10);
     }
     report.floor("T3-timeout-order", 3);
     let seed = report.seed;
-    let n: u64 = if tier.thorough { 120_000 } else { 3_000 };
+    let n: u64 = if tier.thorough { 300_000 } else { 3_000 };
     run_parallel(report, n, threads(), tier.budget_s * 0.9, |i, l| {
         run_one(util::mix(seed, 0xC13_0000 + i), i % 4 == 0, l);
     });
     // a cache-only browse told about an instance piece by piece, an interface appearing, refresh marks passing
-    let n2: u64 = if tier.thorough { 20_000 } else { 500 };
+    let n2: u64 = if tier.thorough { 60_000 } else { 500 };
     run_parallel(report, n2, threads(), tier.budget_s * 0.1, |i, l| {
         cache_only_case(util::mix(seed, 0xC13_6000 + i), l);
+    });
+    // what a stopped browse leaves in the cache
+    let n3: u64 = if tier.thorough { 60_000 } else { 500 };
+    run_parallel(report, n3, threads(), tier.budget_s * 0.1, |i, l| {
+        forget_case(util::mix(seed, 0xC13_7000 + i), l);
     });
 }
